@@ -13,8 +13,12 @@ import (
 	"strconv"
 	"strings"
 	"sync"
+	"time"
 
 	"mosn.io/api"
+	"mosn.io/mosn/pkg/cel"
+	"mosn.io/mosn/pkg/cel/attribute"
+	"mosn.io/mosn/pkg/cel/extract"
 	v2 "mosn.io/mosn/pkg/config/v2"
 	mlog "mosn.io/mosn/pkg/log"
 	"mosn.io/mosn/pkg/protocol"
@@ -38,6 +42,7 @@ type rule struct {
 	prefix, path, regex string
 	vars                []varM
 	hdrs                []hdrM
+	dsl                 []string
 }
 type vhost struct {
 	domains []string
@@ -72,6 +77,56 @@ func tok(s string) string {
 type rxTab struct {
 	ids  map[string]int
 	pats []string
+	dids map[string]int // DSL expressions, numbered per case
+	dsls []string
+}
+
+func (t *rxTab) dslID(e string) (int, bool) {
+	if t.dids == nil {
+		t.dids = map[string]int{}
+	}
+	i, ok := t.dids[e]
+	if !ok {
+		i = len(t.dsls) + 1
+		t.dids[e] = i
+		t.dsls = append(t.dsls, e)
+	}
+	_, _, err := dslCompiler.Compile(e)
+	return i, err == nil
+}
+
+// the CEL oracle: the same compiler and attribute bag the DSL rule uses, evaluated by the harness
+var dslCompiler = cel.NewExpressionBuilder(extract.Attributemanifest, cel.CompatCEXL)
+
+func dslEval(e string, rq request) string {
+	ex, _, err := dslCompiler.Compile(e)
+	if err != nil {
+		return ""
+	}
+	out := "e"
+	hx.Safe(func() {
+		ctx := mkCtx(rq)
+		hd := protocol.CommonHeader{}
+		for k, v := range rq.hdrs {
+			hd[k] = v
+		}
+		bag := attribute.NewMutableBag(extract.ExtractAttributes(ctx, hd, nil, nil, nil, nil, time.Now()))
+		bag.Set(extract.KContext, ctx)
+		res, err := ex.Evaluate(bag)
+		if err != nil {
+			return
+		}
+		if b, ok := res.(bool); ok {
+			if b {
+				out = "t"
+			} else {
+				out = "f"
+			}
+		} else {
+			out = "n" // not a boolean: the rule's type assertion panics
+		}
+	})
+	return out
 }
 
 func (t *rxTab) id(p string) (int, bool) {
@@ -123,6 +178,15 @@ func encodeCfg(vhs []vhost, t *rxTab) string {
 				}
 				p = append(p, tok(h.name), tok(h.value), b01(h.regex), strconv.Itoa(id), b01(ok))
 			}
+			p = append(p, strconv.Itoa(len(r.dsl)))
+			for _, e := range r.dsl {
+				if e == "" {
+					p = append(p, "1", "0", "0")
+				} else {
+					id, ok := t.dslID(e)
+					p = append(p, "0", strconv.Itoa(id), b01(ok))
+				}
+			}
 		}
 	}
 	return strings.Join(p, " ")
@@ -168,6 +232,14 @@ func encodeReq(rq request, t *rxTab) string {
 	}
 	p = append(p, "rx", strconv.Itoa(len(rows)/3))
 	p = append(p, rows...)
+	var drows []string
+	for i, e := range t.dsls {
+		if v := dslEval(e, rq); v != "" {
+			drows = append(drows, strconv.Itoa(i+1), v)
+		}
+	}
+	p = append(p, "dx", strconv.Itoa(len(drows)/2))
+	p = append(p, drows...)
 	return strings.Join(p, " ")
 }
 
@@ -188,6 +260,9 @@ func toV2(vhs []vhost, catchAll bool) *v2.RouterConfiguration {
 			}
 			for _, v := range r.vars {
 				m.Variables = append(m.Variables, v2.VariableMatcher{Name: v.name, Value: v.value, Regex: v.regex, Model: v.model})
+			}
+			for _, e := range r.dsl {
+				m.DslExpressions = append(m.DslExpressions, v2.DslExpressionMatcher{Expression: e})
 			}
 			x.Routers = append(x.Routers, v2.Router{RouterConfig: v2.RouterConfig{
 				Match: m,
@@ -427,6 +502,21 @@ func genHdrs(r *hx.Rng, http bool) []hdrM {
 	return hs
 }
 
+// boolean CEL expressions over the request (plus an empty one and one that does not compile: both are skipped)
+var dslPool = []string{
+	`request.method == "GET"`,
+	`request.method == "POST"`,
+	`conditional((request.method == "GET") && (request.host == "a.cc"),true,false)`,
+	`request.headers["k1"] == "v1"`,
+	`conditional((request.headers["k2"] == "v1"),true,false)`,
+	`request.host == "a.cc" || request.host == "b.a.cc:80"`,
+	`request.path == "/a"`,
+	`true`,
+	`false`,
+	``,
+	`request.method == `,
+}
+
 var varNames = []string{types.VarPath, types.VarMethod, types.VarQueryString, types.VarScheme, types.VarHost, "verif_undefined_variable"}
 
 func genRule(c *hx.Ctx, r *hx.Rng) rule {
@@ -470,6 +560,15 @@ func genRule(c *hx.Ctx, r *hx.Rng) rule {
 			x.hdrs = genHdrs(r, false) // ignored by a variable rule
 		}
 		c.Count("rule=variable")
+	case k < 86:
+		n := 1 + r.Intn(3)
+		for i := 0; i < n; i++ {
+			x.dsl = append(x.dsl, r.PickS(dslPool))
+		}
+		if r.Chance(30) {
+			x.hdrs = genHdrs(r, false) // ignored by a DSL rule
+		}
+		c.Count("rule=dsl")
 	default:
 		switch r.Intn(6) {
 		case 0: // catch-all
@@ -482,10 +581,22 @@ func genRule(c *hx.Ctx, r *hx.Rng) rule {
 		}
 		c.Count("rule=rpc")
 	}
-	// a few rules set several kinds at once: NewRouteBase takes the first of prefix, path, regex, variables
-	if r.Chance(6) {
-		x.path = r.PickS(paths)
-		x.regex = r.PickS(pathRegexes)
+	// a few rules set several kinds at once: NewRouteBase takes the first of prefix, path, regex, variables, dsl
+	if r.Chance(8) {
+		for n := 1 + r.Intn(2); n > 0; n-- {
+			switch r.Intn(5) {
+			case 0:
+				x.prefix = r.PickS(prefixes)
+			case 1:
+				x.path = r.PickS(paths)
+			case 2:
+				x.regex = r.PickS(pathRegexes)
+			case 3:
+				x.vars = append(x.vars, varM{name: types.VarMethod, value: r.PickS([]string{"GET", "POST"})})
+			default:
+				x.dsl = append(x.dsl, r.PickS(dslPool))
+			}
+		}
 		c.Count("rule=mixed-kinds")
 	}
 	if r.Chance(2) {
